@@ -346,6 +346,9 @@ class PartitioningPatternEncoder(PatternEncoderBase):
         if effective_settings.tgt[0].conns == [0, 1]:
             n_opts += 1
 
+        # With one source node and non-optional targets there is only one way to connect: no design variables needed
+        if n_opts < 2:
+            return []
         return [DiscreteDV(n_opts=n_opts, conditionally_active=False) for _ in range(n_tgt)]
 
     def _decode_effective(self, vector: DesignVector, effective_settings: MatrixGenSettings, existence: NodeExistence) \
@@ -356,6 +359,10 @@ class PartitioningPatternEncoder(PatternEncoderBase):
         n_src, n_tgt = len(effective_settings.src), len(effective_settings.tgt)
         n_min_src = effective_settings.src[0].min_conns
         tgt_optional = effective_settings.tgt[0].conns == [0, 1]
+
+        # No design variables: all targets connect to the only source node
+        if len(vector) == 0 and n_src == 1 and not tgt_optional:
+            return vector, np.ones((n_src, n_tgt), dtype=int)
 
         if n_min_src > 0:
             # Count the number of connection for each source
@@ -414,6 +421,8 @@ class PartitioningPatternEncoder(PatternEncoderBase):
         n_min_src = effective_settings.src[0].min_conns
         tgt_optional = effective_settings.tgt[0].conns == [0, 1]
         offset = 1 if tgt_optional else 0
+        if n_src+offset < 2:  # No design variables
+            return np.zeros((1, 0), dtype=int), np.ones((1, n_src, n_tgt), dtype=int)
 
         design_vectors = np.zeros((n, n_tgt), dtype=int)
         matrices = np.zeros((n, n_src, n_tgt), dtype=int)
@@ -446,6 +455,8 @@ class PartitioningPatternEncoder(PatternEncoderBase):
         n_min_src = effective_settings.src[0].min_conns
         tgt_optional = effective_settings.tgt[0].conns == [0, 1]
         offset = 1 if tgt_optional else 0
+        if len(design_vars) == 0:
+            return np.zeros((1, 0), dtype=int)
 
         design_vectors = np.array(list(itertools.product(*[list(range(dv.n_opts)) for dv in design_vars])))
 
